@@ -304,6 +304,11 @@ def write_evidence(prop, tier, seed, P, results, violations, known, wall, truste
 
 
 def replay(prop, path):
+    if prop in PROPS and PROPS[prop].get("kind", "verus") != "verus":
+        # rustc / Kani obligations are re-decided by re-running the check itself on the current tree
+        rc = check(prop, "quick", 0)
+        print("REPLAY: %s" % ("still fails" if rc == 1 else "no longer fails" if rc == 0 else "undecided"))
+        return rc
     ok, err = build_replay()
     if not ok:
         print("UNDECIDED replay crate does not build: " + err[-400:])
